@@ -99,6 +99,52 @@ Definition termK (w : world) (s c : nat) : Prop :=
 Definition linkedp (a : actor) : Prop :=
   a_notify a = true \/ (c_local (a_cfg a) = true /\ exists r f p, a_pc a = InCb PreStart r f p).
 
+(* if the lifecycle recogniser accepts the trace, it has reached its final phase for actor i *)
+Definition pend (i : nat) (tr : list tev) : Prop :=
+  forall st, arun i ast0 tr = Go st -> s_phase st = PEnd.
+
+Lemma arun_snoc_go i s t e st' :
+  arun i s (t ++ [e]) = Go st' -> exists st, arun i s t = Go st /\ astep i st e = Go st'.
+Proof. rewrite arun_app. destruct (arun i s t) as [st|]; [eauto|discriminate]. Qed.
+
+Lemma astep_pend i st e st' : astep i st e = Go st' -> s_phase st = PEnd -> s_phase st' = PEnd.
+Proof.
+  destruct st as [ph g sr k pk]. simpl. intros H E. subst ph.
+  destruct e as [j c|j|j g0|j g0|j c f|j c|j ok|j|j|j|j r|j|j m ok]; simpl in H;
+    try (destruct (Nat.eqb i j); simpl in H);
+    try (destruct k; simpl in H); try (destruct pk; simpl in H);
+    try (destruct c; simpl in H); try (destruct ok; simpl in H);
+    try discriminate; try (injection H as <-; reflexivity).
+Qed.
+
+Lemma pend_emit i tr e : pend i tr -> pend i (tr ++ [e]).
+Proof.
+  intros P st' H. destruct (arun_snoc_go _ _ _ _ _ H) as (st & H1 & H2).
+  apply (astep_pend i st e st' H2). apply P. exact H1.
+Qed.
+
+Definition final_ev (i : nat) (e : tev) : Prop :=
+  e = TJoin i \/ e = TSpawnRet i false \/ exists c, e = TCancel i c.
+
+Lemma pend_final i tr e : final_ev i e -> pend i (tr ++ [e]).
+Proof.
+  intros F st' H. destruct (arun_snoc_go _ _ _ _ _ H) as (st & _ & H2). clear H.
+  destruct st as [ph g sr k pk]. destruct F as [ -> |[ -> |(c & ->)]]; simpl in H2; rewrite Nat.eqb_refl in H2; simpl in H2.
+  - destruct ph; try discriminate; injection H2 as <-; reflexivity.
+  - destruct ph; try discriminate; injection H2 as <-; reflexivity.
+  - destruct ph; try discriminate; destruct c; try discriminate;
+      try (injection H2 as <-; reflexivity);
+      try (destruct (cb_eqb _ _); try discriminate; injection H2 as <-; reflexivity).
+Qed.
+
+Lemma pend_aborted_quiet i tr :
+  (forall st, arun i ast0 tr = Go st -> exit_ready (s_phase st)) -> pend i (tr ++ [TAborted i]).
+Proof.
+  intros Hq st' H. destruct (arun_snoc_go _ _ _ _ _ H) as (st & H1 & H2).
+  specialize (Hq st H1). destruct st as [ph g sr k pk]. simpl in *. rewrite Nat.eqb_refl in H2. simpl in H2.
+  destruct Hq as [ -> |[ -> |[ -> | -> ]]]; injection H2 as <-; reflexivity.
+Qed.
+
 Record UInv (tr : list tev) (x : option nat) (i : nat) (a : actor) : Prop := mkUInv {
   U1 : 5 <= a_status a ->
        a_pc a = Done \/ (exists r f p, a_pc a = InCb PostStop r f p) \/ x = Some i;
@@ -110,7 +156,8 @@ Record UInv (tr : list tev) (x : option nat) (i : nat) (a : actor) : Prop := mkU
   U7 : a_ports a = false -> a_pc a = Done;
   U8 : a_armed a = false -> a_pc a = Done;
   U9 : a_sig_taken a = true -> a_sig a = true \/ a_pc a = Done \/ x = Some i;
-  U10 : pre_pc (a_pc a) = true -> a_notify a = false
+  U10 : pre_pc (a_pc a) = true -> a_notify a = false;
+  U11 : a_pc a = Done -> pend i tr \/ x = Some i
 }.
 
 Record CInv (x : option nat) (w : world) (c : nat) (a : actor) (s : nat) : Prop := mkCInv {
@@ -132,8 +179,8 @@ Ltac uinv_tac :=
   match goal with H : UInv _ _ _ _ |- _ =>
     let u1 := fresh "u1" in let u2 := fresh "u2" in let u3 := fresh "u3" in let u4 := fresh "u4" in
     let u5 := fresh "u5" in let u6 := fresh "u6" in let u7 := fresh "u7" in let u8 := fresh "u8" in
-    let u9 := fresh "u9" in let u10 := fresh "u10" in
-    destruct H as [u1 u2 u3 u4 u5 u6 u7 u8 u9 u10] end;
+    let u9 := fresh "u9" in let u10 := fresh "u10" in let u11 := fresh "u11" in
+    destruct H as [u1 u2 u3 u4 u5 u6 u7 u8 u9 u10 u11] end;
   constructor; simpl in *; auto.
 
 Lemma blocked_tag x x' w s : (x' = x \/ x = None) -> blocked x w s -> blocked x' w s.
@@ -151,9 +198,10 @@ Lemma UInv_emit tr x x' i a e :
   (p_over i e = true \/ p_end i e = true -> a_armed a = false \/ x' = Some i) ->
   UInv (tr ++ [e]) x' i a.
 Proof.
-  intros [u1 u2 u3 u4 u5 u6 u7 u8 u9 u10] Hx Hn Ha.
+  intros [u1 u2 u3 u4 u5 u6 u7 u8 u9 u10 u11] Hx Hn Ha.
   assert (Htag : x = Some i -> x' = Some i) by (intros E; destruct Hx as [ -> | -> ]; [exact E|discriminate]).
-  constructor; [|exact u2| | |exact u5|exact u6|exact u7|exact u8| |exact u10].
+  constructor; [|exact u2| | |exact u5|exact u6|exact u7|exact u8| |exact u10|].
+  5: { intros D. destruct (u11 D) as [A|A]; [left; apply pend_emit; exact A|auto]. }
   - intros L. destruct (u1 L) as [A|[A|A]]; auto.
   - rewrite sok_app, eps_app. intros [A|A]; apply orb_true_iff in A as [A|A]; auto.
   - assert (Hold : callbacks_over i tr = true \/ ended i tr = true -> a_armed a = false \/ x' = Some i).
@@ -286,13 +334,14 @@ Qed.
 Lemma UInv_retag tr x x' i j a (b' : actor) :
   UInv tr x j a -> tagrel x x' i b' -> j <> i -> UInv tr x' j a.
 Proof.
-  intros [u1 u2 u3 u4 u5 u6 u7 u8 u9 u10] Ht Hne.
+  intros [u1 u2 u3 u4 u5 u6 u7 u8 u9 u10 u11] Ht Hne.
   assert (Htag : x = Some j -> x' = Some j).
   { intros E. destruct Ht as [ -> |[ -> |(-> & _ & _)]]; [exact E|discriminate|congruence]. }
-  constructor; [|exact u2|exact u3| |exact u5|exact u6|exact u7|exact u8| |exact u10].
+  constructor; [|exact u2|exact u3| |exact u5|exact u6|exact u7|exact u8| |exact u10|].
   - intros L. destruct (u1 L) as [A|[A|A]]; auto.
   - intros L. destruct (u4 L) as [A|A]; auto.
   - intros L. destruct (u9 L) as [A|[A|A]]; auto.
+  - intros L. destruct (u11 L) as [A|A]; auto.
 Qed.
 
 (* one actor updated, its supervision queue and configuration untouched *)
@@ -571,7 +620,7 @@ Proof.
   eapply tinv_pw with (x := x); [exact H|exact Hpw| | |].
   - intros j a _. destruct (Ftc_fields p ks j a) as (A & B & _). auto.
   - intros j a Ea Ua. destruct (Ftc_fields p ks j a) as (_ & _ & F3 & F4 & F5 & F6 & F7 & F8 & F9 & F10 & _).
-    destruct Ua as [u1 u2 u3 u4 u5 u6 u7 u8 u9 u10].
+    destruct Ua as [u1 u2 u3 u4 u5 u6 u7 u8 u9 u10 u11].
     constructor; rewrite ?F3, ?F4, ?F5, ?F6, ?F7, ?F8, ?F9; auto.
     intros Epc ks' Ek'. destruct F10 as [E|E]; rewrite E in Ek'; [eauto|discriminate].
   - intros c a s Ea El Ca. destruct (Ftc_fields p ks c a) as (_ & _ & F3 & F4 & _ & F6 & _ & _ & _ & _ & F11).
@@ -621,32 +670,28 @@ Lemma tinv_die links w w' i G :
      /\ a_sig_taken (G i b) = a_sig_taken b) ->
   (forall b s, get w i = Some b -> c_link (a_cfg b) = Some s -> a_notify b = true ->
      termK w s i \/ blocked (Some i) w s) ->
-  TInv links None w'.
+  TInv links (Some i) w'.
 Proof.
   intros H Hpw Ho Hi Hk.
   assert (HK : forall s, K w' s = K w s).
   { intros s. apply (K_pw_same _ _ _ s Hpw). intros j b Eb. destruct (Nat.eq_dec j i) as [->|Hne].
     - apply (Hi b Eb).
     - apply (Ho j b Hne Eb). }
-  assert (Hb : forall s, blocked (Some i) w s -> blocked None w' s).
+  assert (Hb : forall s, blocked (Some i) w s -> blocked (Some i) w' s).
   { intros s. unfold blocked. destruct Hpw as [_ g]. rewrite g.
     destruct (get w s) as [b|] eqn:E; simpl; auto. destruct (Nat.eq_dec s i) as [->|Hne].
-    - destruct (Hi b E) as (_ & _ & -> & _). auto.
-    - destruct (Ho s b Hne E) as (_ & _ & -> & -> & _).
-      intros [A|[A|[A|A]]]; auto. congruence. }
+    - auto.
+    - destruct (Ho s b Hne E) as (_ & _ & -> & -> & _). auto. }
   eapply tinv_pw with (x := Some i); [exact H|exact Hpw| | |].
   - intros j b Eb. destruct (Nat.eq_dec j i) as [->|Hne].
     + destruct (Hi b Eb) as (A & B & _). auto.
     + destruct (Ho j b Hne Eb) as (A & B & _). auto.
-  - intros j b Eb [u1 u2 u3 u4 u5 u6 u7 u8 u9 u10]. destruct (Nat.eq_dec j i) as [->|Hne].
+  - intros j b Eb [u1 u2 u3 u4 u5 u6 u7 u8 u9 u10 u11]. destruct (Nat.eq_dec j i) as [->|Hne].
     + destruct (Hi b Eb) as (_ & _ & F3 & F4 & F5 & F6 & F7).
       constructor; rewrite ?F3, ?F4, ?F5, ?F6, ?F7; auto; try (intros; discriminate).
     + destruct (Ho j b Hne Eb) as (_ & _ & F3 & F4 & F5 & F6 & _ & F8 & F9 & F10 & F11).
       constructor; rewrite ?F3, ?F4, ?F5, ?F6, ?F8, ?F9, ?F10; auto.
-      * intros L. destruct (u1 L) as [A|[A|A]]; auto. congruence.
-      * intros Epc ks' Ek'. destruct (F11 ks' Ek') as (ks & Ek & Himp). apply Himp. eapply u2; eauto.
-      * intros L. destruct (u4 L) as [A|A]; auto. congruence.
-      * intros L. destruct (u9 L) as [A|[A|A]]; auto. congruence.
+      intros Epc ks' Ek'. destruct (F11 ks' Ek') as (ks & Ek & Himp). apply Himp. eapply u2; eauto.
   - intros c b s Eb El Cb. destruct (Nat.eq_dec c i) as [->|Hne].
     + destruct (Hi b Eb) as (_ & _ & F3 & F4 & F5 & _).
       destruct Cb as [r p1 p2]. constructor; unfold anyK, termK; rewrite ?HK.
@@ -658,6 +703,28 @@ Proof.
         [exact Cb|apply (trace_of_pw _ _ _ Hpw)|intros y; rewrite HK; auto|apply Hb|congruence
         | |intros _ _; left; exact F7|congruence|intros D; left; congruence].
       unfold linkedp. rewrite F6, F4, Fc. auto.
+Qed.
+
+(* the exit path is complete: the actor is dead and its final event has been logged *)
+Lemma tinv_untag links w i a :
+  TInv links (Some i) w -> get w i = Some a -> a_pc a = Done -> a_armed a = false ->
+  pend i (trace_of w) -> TInv links None w.
+Proof.
+  intros H Eg Epc Ha Hp.
+  assert (Hb : forall s, blocked (Some i) w s -> blocked None w s).
+  { intros s. unfold blocked. destruct (get w s) as [b|] eqn:E; auto.
+    intros [A|[A|[A|A]]]; auto. injection A as <-. rewrite Eg in E. injection E as <-. auto. }
+  eapply tinv_pw with (x := Some i) (F := fun _ b => b); [exact H|apply pw_refl| | |].
+  - auto.
+  - intros j b Eb [u1 u2 u3 u4 u5 u6 u7 u8 u9 u10 u11].
+    assert (Hj : Some i = Some j -> b = a) by (intros E; injection E as <-; congruence).
+    constructor; auto.
+    + intros L. destruct (u1 L) as [A|[A|A]]; auto. rewrite (Hj A). auto.
+    + intros L. destruct (u4 L) as [A|A]; auto. rewrite (Hj A). auto.
+    + intros L. destruct (u9 L) as [A|[A|A]]; auto. rewrite (Hj A). auto.
+    + intros L. destruct (u11 L) as [A|A]; auto. left. injection A as <-. exact Hp.
+  - intros c b s Eb El Cb.
+    eapply cinv_keep; [exact Cb|reflexivity|auto|apply Hb|auto|auto|auto|auto|auto].
 Qed.
 
 Lemma upd_sup_none_id a : a_sup a = None -> upd_sup a None = a.
@@ -688,7 +755,7 @@ Qed.
 Lemma tinv_cleanup links w i a ev :
   TInv links (Some i) w -> get w i = Some a -> a_armed a = true ->
   (a_notify a = true -> exists e, ev = Some e /\ is_terminal e = true /\ about e = i) ->
-  TInv links None (cleanup w i ev).
+  TInv links (Some i) (cleanup w i ev).
 Proof.
   intros H Eg Harm Hev. unfold cleanup. rewrite Eg, Harm. simpl.
   set (w1 := upd w i (fun a0 => upd_status a0 5)).
@@ -753,13 +820,26 @@ Lemma tinv_retag links w i : TInv links None w -> TInv links (Some i) w.
 Proof.
   intros H. eapply tinv_pw with (x := None) (F := fun _ a => a); [exact H|apply pw_refl| | |].
   - auto.
-  - intros j b Eb [u1 u2 u3 u4 u5 u6 u7 u8 u9 u10].
+  - intros j b Eb [u1 u2 u3 u4 u5 u6 u7 u8 u9 u10 u11].
     constructor; auto.
     + intros L. destruct (u1 L) as [A|[A|A]]; auto. discriminate.
     + intros L. destruct (u4 L) as [A|A]; auto. discriminate.
     + intros L. destruct (u9 L) as [A|[A|A]]; auto. discriminate.
+    + intros L. destruct (u11 L) as [A|A]; auto. discriminate.
   - intros c b s Eb El Cb.
     eapply cinv_keep; [exact Cb|reflexivity|auto|apply blocked_tag; auto|auto|auto|auto|auto|auto].
+Qed.
+
+Lemma cleanup_done w i a ev :
+  get w i = Some a -> a_armed a = true ->
+  exists a', get (cleanup w i ev) i = Some a' /\ a_pc a' = Done /\ a_armed a' = false.
+Proof.
+  intros Eg Harm. unfold cleanup. rewrite Eg, Harm. simpl. rewrite get_upd_same.
+  match goal with |- exists a', option_map _ ?G = _ /\ _ => destruct G as [b|] eqn:E end; simpl.
+  - eexists; split; [reflexivity|]. split; reflexivity.
+  - exfalso. revert E. apply get_some_lt. rewrite nact_unlink.
+    destruct ev; rewrite ?nact_notify; unfold terminate; rewrite nact_terminate_fuel, nact_upd;
+      apply get_some_lt; congruence.
 Qed.
 
 Lemma tinv_finish links w i a e :
@@ -767,11 +847,12 @@ Lemma tinv_finish links w i a e :
   is_terminal e = true -> about e = i -> TInv links None (finish w i e).
 Proof.
   intros H Eg Harm Ht Ea. unfold finish.
-  pose proof (cleanup_dead4 w i a (Some e) Eg Harm) as D.
-  apply tinv_emit with (x := None); auto; try (intros ? ? [A|A]; discriminate); try (intros; discriminate).
-  - eapply tinv_cleanup; eauto.
-  - intros j b [A|A] Eb; [discriminate|]. simpl in A. apply Nat.eqb_eq in A. subst j.
-    unfold dead in D. rewrite Eb in D. auto.
+  destruct (cleanup_done w i a (Some e) Eg Harm) as (a' & Eg' & Epc' & Ha').
+  apply (tinv_untag links _ i a'); auto.
+  - apply tinv_emit with (x := Some i); auto; try (intros ? ? [A|A]; discriminate); try (intros; discriminate).
+    + eapply tinv_cleanup; eauto.
+    + intros j b [A|A] Eb; [discriminate|]. simpl in A. apply Nat.eqb_eq in A. subst j. auto.
+  - rewrite trace_of_emit. apply pend_final. left. reflexivity.
 Qed.
 
 Lemma tinv_start_failed links w i a :
@@ -779,8 +860,11 @@ Lemma tinv_start_failed links w i a :
   TInv links None (start_failed w i).
 Proof.
   intros H Eg Harm Hn. unfold start_failed.
-  apply tinv_emit with (x := None); auto; try (intros ? ? [A|A]; discriminate); try (intros; discriminate).
-  eapply tinv_cleanup; eauto. intros N. congruence.
+  destruct (cleanup_done w i a None Eg Harm) as (a' & Eg' & Epc' & Ha').
+  apply (tinv_untag links _ i a'); auto.
+  - apply tinv_emit with (x := Some i); auto; try (intros ? ? [A|A]; discriminate); try (intros; discriminate).
+    eapply tinv_cleanup; eauto. intros N. congruence.
+  - rewrite trace_of_emit. apply pend_final. right; left. reflexivity.
 Qed.
 
 Lemma tinv_killed_exit links w i a c :
@@ -821,7 +905,7 @@ Proof.
   pose proof (t_act _ _ _ H i a Eg) as Ua.
   eapply tinv_killed_exit with (a := upd_sig (F a) false true).
   - eapply tinv_upd with (x := None) (a := a); [exact H|exact Eg|exact Fq|exact Fc| |right; left; reflexivity| |].
-    + intros _. destruct Ua as [u1 u2 u3 u4 u5 u6 u7 u8 u9 u10].
+    + intros _. destruct Ua as [u1 u2 u3 u4 u5 u6 u7 u8 u9 u10 u11].
       constructor; simpl; rewrite ?Fa, ?Fn, ?Fp, ?Fk, ?Fpc; auto; try (intros; discriminate).
     + unfold blocked. rewrite get_upd_same, Eg. simpl. auto.
     + intros s El Ci.
@@ -862,7 +946,7 @@ Proof.
   rewrite upd_emit, upd_upd.
   set (G := fun a0 => upd_pc (F a0) (InCb c es' f false)).
   assert (UG : UInv (trace_of w) None i (G a)).
-  { destruct Ua as [u1 u2 u3 u4 u5 u6 u7 u8 u9 u10]. unfold G.
+  { destruct Ua as [u1 u2 u3 u4 u5 u6 u7 u8 u9 u10 u11]. unfold G.
     constructor; simpl; rewrite ?Fa, ?Fn, ?Fp, ?Fk, ?Fsig, ?Ft.
     - intros L. right; left. rewrite (Hst L). eauto.
     - intros; discriminate.
@@ -877,7 +961,8 @@ Proof.
     - intros P. destruct (u9 P) as [A|[A|A]]; [left; exact A| |discriminate].
       destruct Hq as [E|[E|E]]; congruence.
     - intros P. destruct c; try discriminate. apply u10.
-      unfold start_from in Hfrom. destruct (a_pc a); try contradiction; reflexivity. }
+      unfold start_from in Hfrom. destruct (a_pc a); try contradiction; reflexivity.
+    - intros; discriminate. }
   assert (Hnb : ~ blocked None w i).
   { unfold blocked. rewrite Eg. intros [A|[A|[(r & f0 & p & A)|A]]]; try congruence;
       destruct Hq as [E|[E|E]]; congruence. }
@@ -961,7 +1046,7 @@ Proof.
     intros [A|[A|[(r & f & p & A)|A]]]; auto; try discriminate; rewrite A in Hpre; discriminate. }
   eapply tinv_pw with (x := None); [exact H|exact Hpw| | |].
   - intros j b _. destruct (Flk_fields fin i s ks j b) as (A & B & _). auto.
-  - intros j b Eb [u1 u2 u3 u4 u5 u6 u7 u8 u9 u10].
+  - intros j b Eb [u1 u2 u3 u4 u5 u6 u7 u8 u9 u10 u11].
     destruct (Flk_fields fin i s ks j b) as (_ & _ & F3 & _ & F5 & F6 & F7).
     destruct (Hpcs j b Eb) as (G1 & G2 & G3 & G4).
     destruct G4 as [G4|(-> & -> & G4)].
@@ -1031,7 +1116,7 @@ Lemma UInv_pc tr x i a q :
   (pre_pc q = false -> a_notify a = true) -> (pre_pc q = true -> a_notify a = false) ->
   UInv tr x i (upd_pc a q).
 Proof.
-  intros [u1 u2 u3 u4 u5 u6 u7 u8 u9 u10] Hnd Hq1 Hq2 Hst Hn1 Hn2.
+  intros [u1 u2 u3 u4 u5 u6 u7 u8 u9 u10 u11] Hnd Hq1 Hq2 Hst Hn1 Hn2.
   constructor; simpl.
   - intros L. destruct (Hst L) as [A|A]; auto.
   - intros E. congruence.
@@ -1043,11 +1128,12 @@ Proof.
   - intros P. exfalso. auto.
   - intros P. destruct (u9 P) as [A|[A|A]]; auto; contradiction.
   - exact Hn2.
+  - intros P. contradiction.
 Qed.
 
 Lemma UInv_status tr x i a v : v < 5 -> UInv tr x i a -> UInv tr x i (upd_status a v).
 Proof.
-  intros Hv [u1 u2 u3 u4 u5 u6 u7 u8 u9 u10]. constructor; simpl; auto.
+  intros Hv [u1 u2 u3 u4 u5 u6 u7 u8 u9 u10 u11]. constructor; simpl; auto.
   intros L. apply u1. lia.
 Qed.
 
@@ -1121,7 +1207,7 @@ Proof.
     + apply tinv_emit with (x := None); auto; try (intros; discriminate).
       * eapply tinv_upd with (x := None) (a := a); [apply Hx|exact Egx|reflexivity|reflexivity| |left; reflexivity| |].
         -- intros Ux. assert (Hnd : a_pc a <> Done) by (rewrite Epc; discriminate).
-           destruct Ux as [u1 u2 u3 u4 u5 u6 u7 u8 u9 u10]. constructor; simpl.
+           destruct Ux as [u1 u2 u3 u4 u5 u6 u7 u8 u9 u10 u11]. constructor; simpl.
            ++ intros L. destruct (u1 L) as [A|[(r & f0 & p0 & A)|A]];
                 [contradiction|rewrite Epc in A; discriminate|discriminate].
            ++ intros; discriminate.
@@ -1132,6 +1218,7 @@ Proof.
            ++ intros P. exfalso. auto.
            ++ intros P. exfalso. auto.
            ++ intros P. destruct (u9 P) as [A|[A|A]]; auto; contradiction.
+           ++ intros; discriminate.
            ++ intros; discriminate.
         -- unfold blocked. rewrite get_upd_same, Egx. simpl.
            intros [A|[A|[(r & f0 & p0 & A)|A]]]; auto; rewrite Epc in A; discriminate.
@@ -1257,7 +1344,7 @@ Proof.
   destruct (drain_upd_fields a) as (E1 & E2 & E3 & E4 & E5 & E6 & E7).
   destruct (drain_upd_more a) as (D1 & D2 & D3 & D4 & D5 & D6).
   eapply tinv_upd_plain with (a := a); eauto.
-  - intros [u1 u2 u3 u4 u5 u6 u7 u8 u9 u10].
+  - intros [u1 u2 u3 u4 u5 u6 u7 u8 u9 u10 u11].
     constructor; rewrite ?E1, ?E2, ?E3, ?E4, ?E7, ?D3, ?D4; auto.
   - unfold blocked. rewrite get_upd_same, Eg. simpl. rewrite E1, E3. auto.
   - unfold linkedp. rewrite D4, D2, E1. auto.
@@ -1425,7 +1512,7 @@ Proof.
   set (w1 := upd w i (fun a0 => upd_sig a0 false true)).
   assert (H1 : TInv links (Some i) w1).
   { eapply tinv_upd with (x := None) (a := a); [exact H|exact Eg|reflexivity|reflexivity| |right; left; reflexivity| |].
-    - intros [u1 u2 u3 u4 u5 u6 u7 u8 u9 u10]. constructor; simpl; auto; try (intros; discriminate).
+    - intros [u1 u2 u3 u4 u5 u6 u7 u8 u9 u10 u11]. constructor; simpl; auto; try (intros; discriminate).
     - unfold blocked. rewrite get_upd_same, Eg. simpl. auto.
     - intros s El Ci.
       assert (EK : forall s0, K w1 s0 = K w s0).
@@ -1447,9 +1534,10 @@ Proof.
   - intros E. injection E as ->. simpl. apply (U10 _ _ _ _ Ua). rewrite Epc. reflexivity.
 Qed.
 
-Lemma tinv_abort links w i : TInv links None w -> TInv links None (abort w i).
+Lemma tinv_abort links w i :
+  Inv None w -> TInv links None w -> TInv links None (abort w i).
 Proof.
-  intros H. unfold abort. destruct (get w i) as [a|] eqn:Eg; [|exact H].
+  intros HI H. unfold abort. destruct (get w i) as [a|] eqn:Eg; [|exact H].
   pose proof (t_act _ _ _ H i a Eg) as Ua.
   set (ev := if a_notify a then Some (STerminated i false (Some R_CANCELLED)) else None).
   assert (Hev : a_notify a = true -> exists e, ev = Some e /\ is_terminal e = true /\ about e = i).
@@ -1458,18 +1546,32 @@ Proof.
   { apply tinv_emit with (x := None); auto; try (intros; discriminate).
     - intros j b [A|A]; discriminate.
     - intros j b [A|A] Eb; [discriminate|]. right. simpl in A. apply Nat.eqb_eq in A. congruence. }
-  assert (Hquiet : a_pc a <> Done -> TInv links None (cleanup (emit w (TAborted i)) i ev)).
-  { intros Hnd. eapply tinv_cleanup with (a := a); eauto.
-    destruct (a_armed a) eqn:E; auto. apply (U8 _ _ _ _ Ua) in E. congruence. }
-  destruct (a_pc a) as [| | |c rest f p| |] eqn:Epc; try exact H;
-    try (apply Hquiet; discriminate).
+  assert (Harm : a_pc a <> Done -> a_armed a = true).
+  { intros Hnd. destruct (a_armed a) eqn:E; auto. apply (U8 _ _ _ _ Ua) in E. congruence. }
+  (* the recogniser state of i, from the lifecycle invariant *)
+  pose proof (HI i) as Hi. unfold InvA in Hi. rewrite Eg in Hi. simpl in Hi.
+  destruct Hi as (s0 & Hs0 & (_ & Hpc & _)). unfold tr in Hs0. fold (trace_of w) in Hs0.
+  assert (Hquiet : a_pc a = NotStarted \/ a_pc a = Spawned \/ a_pc a = Idle ->
+                   TInv links None (cleanup (emit w (TAborted i)) i ev)).
+  { intros Hq. assert (Hnd : a_pc a <> Done) by (destruct Hq as [E|[E|E]]; rewrite E; discriminate).
+    destruct (cleanup_done (emit w (TAborted i)) i a ev Eg (Harm Hnd)) as (a' & Eg' & Epc' & Ha').
+    apply (tinv_untag links _ i a'); auto.
+    - eapply tinv_cleanup with (a := a); eauto.
+    - unfold trace_of. rewrite trace_cleanup. apply pend_aborted_quiet.
+      intros st Est. change (arun i ast0 (trace_of w) = Go st) in Est. rewrite Hs0 in Est. injection Est as <-.
+      unfold pc_rel in Hpc. unfold exit_ready.
+      destruct Hq as [E|[E|E]]; rewrite E in Hpc; [destruct Hpc|..]; tauto. }
+  destruct (a_pc a) as [| | |c rest f p| |] eqn:Epc; try exact H; try (apply Hquiet; tauto).
   destruct p; [|exact H].
-  eapply tinv_cleanup with (a := a); eauto.
-  - apply tinv_emit with (x := Some i); auto; try (intros; discriminate).
+  assert (Hnd : InCb c rest f true <> Done) by discriminate.
+  destruct (cleanup_done (emit (emit w (TAborted i)) (TCancel i c)) i a ev Eg (Harm Hnd)) as (a' & Eg' & Epc' & Ha').
+  apply (tinv_untag links _ i a'); auto.
+  - eapply tinv_cleanup with (a := a); eauto.
+    apply tinv_emit with (x := Some i); auto; try (intros; discriminate).
     + intros j b [A|A]; discriminate.
     + intros j b [A|A] Eb; [|discriminate]. right.
       simpl in A. destruct c; try discriminate; apply Nat.eqb_eq in A; congruence.
-  - destruct (a_armed a) eqn:E; auto. apply (U8 _ _ _ _ Ua) in E. congruence.
+  - unfold trace_of. rewrite trace_cleanup. apply pend_final. right; right. eauto.
 Qed.
 
 Lemma tinv_segs links fuel w i : TInv links None w -> TInv links None (segs fuel w i).
@@ -1485,9 +1587,9 @@ Proof.
   destruct (resume w i) as [w' go]. simpl in H'. destruct go; [apply tinv_segs|]; exact H'.
 Qed.
 
-Lemma tinv_step links w l : TInv links None w -> TInv links None (step w l).
+Lemma tinv_step links w l : Inv None w -> TInv links None w -> TInv links None (step w l).
 Proof.
-  intros H. destruct l as [i|i m|i r|i|i|g|i|i fuel]; simpl.
+  intros HI H. destruct l as [i|i m|i r|i|i|g|i|i fuel]; simpl.
   - destruct (get w i) as [a|] eqn:Eg; [|exact H].
     destruct (a_pc a) eqn:Epc; try exact H.
     pose proof (t_act _ _ _ H i a Eg) as Ua.
@@ -1505,14 +1607,14 @@ Proof.
   - apply tinv_req_drain. exact H.
   - destruct H as [h1 h2 h3 h4 h5]. constructor; [exact h1|exact h2|exact h3|exact h4|].
     intros c a s Eg El. destruct (h5 c a s Eg El) as [r p1 p2]. constructor; [exact r|exact p1|exact p2].
-  - apply tinv_abort. exact H.
+  - apply tinv_abort; assumption.
   - apply tinv_poll. exact H.
 Qed.
 
-Lemma tinv_run links ls w : TInv links None w -> TInv links None (run w ls).
+Lemma tinv_run links ls w : Inv None w -> TInv links None w -> TInv links None (run w ls).
 Proof.
-  unfold run. revert w. induction ls as [|l t IH]; simpl; intros w H; [exact H|].
-  apply IH. apply tinv_step. exact H.
+  unfold run. revert w. induction ls as [|l t IH]; simpl; intros w HI H; [exact H|].
+  apply IH; [apply inv_step; exact HI|apply tinv_step; assumption].
 Qed.
 
 Lemma tinv_init cfgs msgs : TInv (map c_link cfgs) None (init cfgs msgs).
@@ -1537,11 +1639,11 @@ Qed.
 
 Theorem terminal_first_sound cfgs msgs ls :
   check_C04_terminal_first (map c_link cfgs) (trace_of (run (init cfgs msgs) ls)) = true.
-Proof. exact (t_chk1 _ _ _ (tinv_run _ ls _ (tinv_init cfgs msgs))). Qed.
+Proof. exact (t_chk1 _ _ _ (tinv_run _ ls _ (inv_init cfgs msgs) (tinv_init cfgs msgs))). Qed.
 
 Theorem sup_first_sound cfgs msgs ls :
   check_C03_sup_first (map c_link cfgs) (trace_of (run (init cfgs msgs) ls)) = true.
-Proof. exact (t_chk2 _ _ _ (tinv_run _ ls _ (tinv_init cfgs msgs))). Qed.
+Proof. exact (t_chk2 _ _ _ (tinv_run _ ls _ (inv_init cfgs msgs) (tinv_init cfgs msgs))). Qed.
 
 Theorem terminal_first_sound_dops cfgs msgs rounds fuel order ops :
   check_C04_terminal_first (map c_link cfgs)
@@ -1766,3 +1868,58 @@ Qed.
 Theorem join_sound_dops cfgs msgs rounds fuel order ops n :
   check_C04_join n (trace_of (run_dops rounds fuel order (init cfgs msgs) ops)) = true.
 Proof. rewrite run_dops_labels. apply join_sound. Qed.
+
+(* ------------------------------------------------------------------ *)
+(* check_C04_complete: the "at least once" half, for settled worlds     *)
+
+(* nothing is pending for an actor that waits between handlers *)
+Definition settled (w : world) : Prop :=
+  forall i a, get w i = Some a -> a_pc a = Idle -> a_sig a = false /\ a_supq a = [].
+
+Theorem complete_sound cfgs msgs ls :
+  settled (run (init cfgs msgs) ls) ->
+  check_C04_complete (map c_link cfgs) (trace_of (run (init cfgs msgs) ls)) = true.
+Proof.
+  intros Hset. set (w := run (init cfgs msgs) ls) in *.
+  pose proof (tinv_run (map c_link cfgs) ls _ (inv_init cfgs msgs) (tinv_init cfgs msgs)) as H. fold w in H.
+  pose proof (inv_run ls _ (inv_init cfgs msgs)) as HI. fold w in HI.
+  unfold check_C04_complete. apply forallb_forall. intros c _.
+  rewrite (t_links _ _ _ H c). unfold link_of.
+  destruct (get w c) as [a|] eqn:Egc; auto. destruct (c_link (a_cfg a)) as [s|] eqn:El; auto.
+  destruct (started_ok c (trace_of w)) eqn:E1; simpl; auto.
+  destruct (ended c (trace_of w)) eqn:E2; simpl; auto.
+  destruct (idle_alive_at_end s (trace_of w)) eqn:E3; auto.
+  pose proof (t_act _ _ _ H c a Egc) as Uc.
+  assert (N : a_notify a = true) by (apply (U3 _ _ _ _ Uc); auto).
+  assert (D : a_armed a = false) by (destruct (U4 _ _ _ _ Uc) as [A|A]; [auto|exact A|discriminate]).
+  (* the supervisor is really waiting between handlers *)
+  unfold idle_alive_at_end in E3.
+  destruct (arun s ast0 (trace_of w)) as [st|] eqn:Ear; [|discriminate].
+  destruct (s_phase st) eqn:Eph; try discriminate.
+  pose proof (HI s) as Hs. unfold InvA in Hs. change (tr w s) with (arun s ast0 (trace_of w)) in Hs.
+  destruct (get w s) as [b|] eqn:Egs.
+  2: { rewrite Ear in Hs. injection Hs as ->. discriminate. }
+  destruct Hs as (s0 & Hs0 & (_ & Hpc & _)). simpl in Hs0. rewrite Ear in Hs0. injection Hs0 as <-.
+  pose proof (t_act _ _ _ H s b Egs) as Us.
+  assert (Eidle : a_pc b = Idle).
+  { unfold pc_rel in Hpc. destruct (a_pc b) as [| | |cb rest f p| |] eqn:Epc; auto.
+    - destruct Hpc as (-> & _). discriminate.
+    - destruct Hpc as (A & _). congruence.
+    - congruence.
+    - destruct Hpc as (A & _). rewrite Eph in A. destruct cb; discriminate.
+    - destruct (U11 _ _ _ _ Us Epc) as [P|P]; [|discriminate]. rewrite (P st Ear) in Eph. discriminate. }
+  destruct (Hset s b Egs Eidle) as [Hsig Hq].
+  destruct (CP2 _ _ _ _ _ (t_cs _ _ _ H c a s Egc El) N D) as [(y & Hy & Ht & Hab)|B].
+  - apply Nat.ltb_lt. rewrite count_sup_hl.
+    assert (HK : K w s = hl s (trace_of w)) by (unfold K, supq_of; rewrite Egs, Hq; apply app_nil_r).
+    rewrite HK in Hy. apply (filter_len_pos _ _ y Hy). rewrite Ht, Hab, Nat.eqb_refl. reflexivity.
+  - exfalso. unfold blocked in B. rewrite Egs in B.
+    destruct B as [A|[A|[(r & f0 & p & A)|A]]]; congruence.
+Qed.
+
+(* the driver programs of the E1 engine *)
+Theorem complete_sound_dops cfgs msgs rounds fuel order ops :
+  settled (run_dops rounds fuel order (init cfgs msgs) ops) ->
+  check_C04_complete (map c_link cfgs)
+    (trace_of (run_dops rounds fuel order (init cfgs msgs) ops)) = true.
+Proof. rewrite run_dops_labels. apply complete_sound. Qed.
